@@ -73,11 +73,17 @@ func (s *socket) addPipe(tp transport.Pipe, d *dialer, l *listener) {
 	p.lock.Lock()
 	if p.closing {
 		p.lock.Unlock()
+		// Closed during the Attaching callback: it was never added, so
+		// nobody else will take it off the list or release its ID.
+		s.pipes.Remove(p)
+		pipeIDs.Free(p.id)
 		return
 	}
 	if s.proto.AddPipe(p) != nil {
 		p.lock.Unlock()
 		s.pipes.Remove(p)
+		// Never added, so remPipe will not run: release the ID here.
+		pipeIDs.Free(p.id)
 		go p.close()
 		return
 	}
